@@ -149,6 +149,37 @@ theorem Avg.avg_loss_pending_le (sqrt : α → α) (hpos : ∀ x, 0 < x → 0 < 
     (by unfold Avg.nRequested; omega) hsd
   simpa [Avg.loss] using this
 
+theorem Scalar.divOpt_nonneg (x : α) (t : Option α) (ht : ∀ u, t = some u → 0 < u) (h : 0 ≤ x) :
+    0 ≤ Scalar.divOpt x t := by
+  cases t with
+  | none => simp [Scalar.divOpt]
+  | some u => exact div_nonneg h (ht u rfl).le
+
+/-- the standard deviation, when finite, is non-negative (`sqrt` non-negative on non-negatives) -/
+theorem Avg.avg_std_nonneg (sqrt : α → α) (hsq : ∀ x, 0 ≤ x → 0 ≤ sqrt x) (s : Avg.State α) (sd : α)
+    (hsd : Avg.std sqrt s = some sd) : 0 ≤ sd := by
+  unfold Avg.std at hsd
+  simp only at hsd
+  split at hsd
+  · cases hsd
+  · split at hsd
+    · cases hsd; exact le_refl _
+    · rename_i hneg
+      cases hsd
+      apply hsq
+      apply div_nonneg (not_lt.1 hneg)
+      exact Nat.cast_nonneg _
+
+/-- C16.e0  the loss, when finite, is non-negative -/
+theorem Avg.avg_loss_nonneg (sqrt : α → α) (hsq : ∀ x, 0 ≤ x → 0 ≤ sqrt x)
+    (s : Avg.State α) (n : Nat) (sd : α)
+    (hat : ∀ u, s.atol = some u → 0 < u)
+    (hn : s.minNpoints ≤ n) (hsd : Avg.std sqrt s = some sd) :
+    ∃ a, Avg.lossN sqrt s n = some a ∧ 0 ≤ a := by
+  refine ⟨_, Avg.avg_loss_formula sqrt s n sd hn hsd, ?_⟩
+  have h0 := Avg.avg_std_nonneg sqrt hsq s sd hsd
+  exact le_max_of_le_left (Scalar.divOpt_nonneg _ _ hat (div_nonneg h0 (hsq _ (Nat.cast_nonneg _))))
+
 end AvgLearner
 
 /-! Non-vacuity (AverageLearner): a concrete history over ℚ exercising the ignored re-tell,
